@@ -39,7 +39,7 @@ func (Prop) Describe() core.Description {
 		Notes: map[string]string{
 			"sim_time_note": "C20 has no clock in it; sim_time_ns is 0 by construction",
 		},
-		RequiredProbesQuick: []string{"panic_recovered_call", "panic_recovered_hook", "error_with_data", "wrong_data_only", "inapplicable_faulty", "goexit_env", "invalid_regexp", "lacking_interface", "lacking_interface_all_inapplicable", "typehelper_used", "nil_receiver", "nil_value_unmarshal", "nil_interface_value", "long_list", "before_hook_adjusts_case", "asymmetric_typehelper_wildcard", "cloning_typehelper", "emptied_not_nil", "listed_nil_value", "second_concrete_type"},
+		RequiredProbesQuick: []string{"panic_recovered_call", "panic_recovered_hook", "error_with_data", "wrong_data_only", "inapplicable_faulty", "goexit_env", "invalid_regexp", "lacking_interface", "lacking_interface_all_inapplicable", "typehelper_used", "nil_receiver", "nil_value_unmarshal", "nil_interface_value", "long_list", "before_hook_adjusts_case", "asymmetric_typehelper_wildcard", "cloning_typehelper", "emptied_not_nil", "listed_nil_value", "second_concrete_type", "listed_empty_data", "json_equivalent_wrong_data", "lenient_equal_method"},
 	}
 }
 
@@ -67,7 +67,12 @@ func (Prop) EnumSize(tier string) int {
 // behaviour x position; (b) ways of being wrong x payload ending in a newline or not: 6 x 2 x
 // numWrong x 2 x {right, wrong}; (c) asymmetric TypeHelper with an open payload: 3 unmarshal
 // helpers x {V, *P} x behaviour x position
-func enumExtras() int { return 6*2*nBeh*nPos + 6*2*numWrong*2*2 + 3*2*nBeh*nPos + enumKinds() + enumAdjust2() + enumPreds2() }
+func enumExtras() int {
+	return 6*2*nBeh*nPos + 6*2*numWrong*2*2 + 3*2*nBeh*nPos + enumKinds() + enumAdjust2() + enumPreds2() + enumEmptyData()
+}
+
+// (g) cases that expect no data at all: 3 marshal helpers x {V, *P} x behaviour x position
+func enumEmptyData() int { return 3 * 2 * nBeh * nPos }
 
 // (e) adjusting Before hook where the fresh value depends on the adjusted case: V with a
 // prototype-cloning TypeHelper, and interface-typed T whose listed value is nil and whose hook
@@ -120,6 +125,20 @@ func extraSpec(r int) (ls listSpec, ok bool) {
 		r /= 2
 		ls.enc, ls.dir = r/2, r%2
 		ls.cases = []caseSpec{c}
+	case r >= a+b+3*2*nBeh*nPos+enumKinds()+enumAdjust2()+enumPreds2():
+		r -= a + b + 3*2*nBeh*nPos + enumKinds() + enumAdjust2() + enumPreds2()
+		c := caseSpec{payload: "x", emptyData: true}
+		c.beh = r % nBeh
+		r /= nBeh
+		pos := r % nPos
+		r /= nPos
+		ls.shape = r % 2
+		r /= 2
+		ls.enc, ls.dir = r, dirMarshal
+		if c.beh == bPanicAfterSet {
+			return ls, false
+		}
+		ls.cases = place(c, pos)
 	case r >= a+b+3*2*nBeh*nPos+enumKinds()+enumAdjust2():
 		r -= a + b + 3*2*nBeh*nPos + enumKinds() + enumAdjust2()
 		c := caseSpec{payload: "x"}
@@ -353,7 +372,7 @@ func classOf(ls listSpec, l *listRun) (nontrivial bool, classes []uint64) {
 		if l.failures[i] > 0 {
 			verdict = 1
 		}
-		h.Add(uint64(ls.enc*2+ls.dir)<<40 | uint64(ls.shape)<<32 | uint64(pos)<<28 | uint64(c.constraint)<<24 | uint64(c.beh)<<16 | uint64(c.before)<<12 | uint64(c.after)<<8 | uint64(c.pred)<<4 | uint64(verdict)<<1 | uint64(ls.typeHelper)<<50 | b2u(c.adjust)<<46 | uint64(c.wrongKind)<<52 | b2u(c.wildcard)<<47 | b2u(c.nilExpect)<<48 | b2u(c.other)<<49 | b2u(c.nilValue)<<44 | b2u(c.nilIface)<<45)
+		h.Add(uint64(ls.enc*2+ls.dir)<<40 | uint64(ls.shape)<<32 | uint64(pos)<<28 | uint64(c.constraint)<<24 | uint64(c.beh)<<16 | uint64(c.before)<<12 | uint64(c.after)<<8 | uint64(c.pred)<<4 | uint64(verdict)<<1 | uint64(ls.typeHelper)<<50 | b2u(c.adjust)<<46 | uint64(c.wrongKind)<<52 | b2u(c.wildcard)<<47 | b2u(c.nilExpect)<<48 | b2u(c.other)<<49 | b2u(c.emptyData)<<55 | b2u(c.nilValue)<<44 | b2u(c.nilIface)<<45)
 		classes = append(classes, uint64(h))
 	}
 	if !ls.hasInterface() && len(ls.cases) > 0 {
@@ -467,6 +486,15 @@ func probes(res *core.Result, ls listSpec, l *listRun) {
 		if c.other {
 			res.Probes.Inc("second_concrete_type")
 		}
+		if c.emptyData {
+			res.Probes.Inc("listed_empty_data")
+		}
+		if c.beh == bWrong && c.wrongKind == wJSONEquivalent {
+			res.Probes.Inc("json_equivalent_wrong_data")
+		}
+		if ls.shape == shStr && c.beh == bWrong && c.wrongKind == wUpper && ls.dir == dirUnmarshal {
+			res.Probes.Inc("lenient_equal_method")
+		}
 		if c.pred == pMatchInvalid {
 			res.Probes.Inc("invalid_regexp")
 			res.Faults.Inc("predicate_invalid_regexp")
@@ -479,7 +507,7 @@ func finish(res *core.Result, ls listSpec, o core.RunOpts, extraTrace []string) 
 	h := core.NewHash()
 	h.Add(uint64(ls.enc*2+ls.dir)<<8 | uint64(ls.shape)<<4 | b2u(ls.goexit)<<1 | uint64(ls.typeHelper)<<2)
 	for _, c := range ls.cases {
-		h.Add(uint64(c.constraint)<<24 | uint64(c.beh)<<16 | uint64(c.before)<<12 | uint64(c.after)<<8 | uint64(c.pred) | b2u(c.nilValue)<<28 | b2u(c.nilIface)<<29 | b2u(c.adjust)<<30 | uint64(c.wrongKind)<<32 | b2u(c.wildcard)<<31 | b2u(c.nilExpect)<<36 | b2u(c.other)<<37)
+		h.Add(uint64(c.constraint)<<24 | uint64(c.beh)<<16 | uint64(c.before)<<12 | uint64(c.after)<<8 | uint64(c.pred) | b2u(c.nilValue)<<28 | b2u(c.nilIface)<<29 | b2u(c.adjust)<<30 | uint64(c.wrongKind)<<32 | b2u(c.wildcard)<<31 | b2u(c.nilExpect)<<36 | b2u(c.other)<<37 | b2u(c.emptyData)<<38)
 	}
 	for _, e := range l.events {
 		h.AddString(e.what)
@@ -559,6 +587,7 @@ func genCase(t *core.Tape) caseSpec {
 	c.wildcard = t.Bool(1, 4)
 	c.nilExpect = t.Bool(1, 6)
 	c.other = t.Bool(1, 3)
+	c.emptyData = t.Bool(1, 8)
 	c.payload = [...]string{"p", "", "payload with spaces", "{\"k\":1}", "\x00\xff", "~", "line\n", "100% %s"}[t.Choose(8)]
 	return c
 }
